@@ -119,7 +119,7 @@ func cmdHarness(args []string) int {
 	kf := loadKnown()
 	ss := mkSolvers(workers, tmo)
 	defer closeSolvers(ss)
-	opt := &sym.Options{Harness: name, Params: params, Enabled: enabledFn(enable), Known: kf.openSet(), Solvers: ss, PathModels: verbose}
+	opt := &sym.Options{Harness: name, Params: params, Enabled: enabledFn(enable), Known: kf.openSet(), Solvers: ss, PathModels: verbose, Portfolio: true}
 	t1 := time.Now()
 	hr := prog.RunHarness(opt)
 	fmt.Printf("explored in %.1fs: paths=%d ends=%v instr=%d maxdec=%d maybeInfeasible=%d\n", time.Since(t1).Seconds(), hr.Paths, hr.EndCounts, hr.Instr, hr.MaxDec, hr.MaybeInf)
